@@ -244,7 +244,7 @@ def check_literals(ck, gvh, oracle, tier, st):
         cases.append({"kind": kind, "src": text.encode(), "want": ref_number(text), "text": text})
     for c in gen_long_strings(rng, 0):
         cases.append({"kind": c[0], "src": c[1], "want": "s" + (c[2].hex() or "-")})
-    nstr = 2500 if tier == "quick" else 60000
+    nstr = 2000 if tier == "quick" else 60000
     for _ in range(nstr):
         k, s, v = gen_short_string(rng)
         cases.append({"kind": k, "src": s, "want": "s" + (v.hex() or "-")})
